@@ -292,6 +292,22 @@ func (w *world) corrupt(kind string, now int64) string {
 		return "(SJunk Hit false)"
 	case "st1":
 		return put(1, -1, now, now+60)
+	}
+	if strings.HasPrefix(kind, "cut:") || strings.HasPrefix(kind, "cuthfp:") {
+		// a valid record short by k bytes, 1 <= k <= 15: the cut falls inside the two trailing 8-byte time fields
+		var k int
+		if strings.HasPrefix(kind, "cut:") {
+			fmt.Sscanf(kind, "cut:%d", &k)
+			b, _ := cache.VerifNewEntry(3, mkResp(7782), now, now+60).Bytes()
+			w.fs.data[string(w.key)] = b[:len(b)-k]
+			return "(SJunk Hit true)"
+		}
+		fmt.Sscanf(kind, "cuthfp:%d", &k)
+		b, _ := cache.VerifNewEntry(2, nil, 0, now+60).Bytes()
+		w.fs.data[string(w.key)] = b[:len(b)-k]
+		return "(SJunk HitForPass false)"
+	}
+	switch kind {
 	case "st0":
 		return put(0, 7778, now, now+60)
 	case "immortal":
@@ -453,10 +469,13 @@ func runCase(t *testing.T, rnd *hx.Rand, caseNo int, nops int, withStore bool, i
 				record(op{Kind: "restart"}, "OpRestart")
 				dist["restart"]++
 			case x < 96 && withStore:
-				kind := []string{"none", "junk", "junk8", "st1", "st0", "immortal", "hit-nil", "expired", "hfp", "hit"}[rnd.Intn(10)]
+				kind := []string{"none", "junk", "junk8", "st1", "st0", "immortal", "hit-nil", "expired", "hfp", "hit", "cut", "cuthfp"}[rnd.Intn(12)]
+				if kind == "cut" || kind == "cuthfp" {
+					kind = fmt.Sprintf("%s:%d", kind, 1+rnd.Intn(15))
+				}
 				term := w.corrupt(kind, time.Now().Unix())
 				record(op{Kind: "corrupt", Corrupt: kind}, "(OpCorrupt "+term+")")
-				dist["corrupt:"+kind]++
+				dist["corrupt:"+strings.SplitN(kind, ":", 2)[0]]++
 			case withStore:
 				rd, wr := !rnd.Chance(40), !rnd.Chance(40)
 				w.fs.mu.Lock()
@@ -501,7 +520,7 @@ func TestFlight(t *testing.T) {
 	n := envInt("PV_N", 50)
 	rnd := hx.NewRand(seed)
 	sum := hx.NewSummary("flight", seed)
-	sum.Rule = "one case = one history of 30-45 ops on one cache key through the real cache middleware (server.NewCache over a real size-8 dispatcher, fake store in half of the cases) under testing/synctest: arrive (GET, 6% POST) / release of an in-flight upstream exchange with outcome {cacheable ttl 1,2,3,5 | uncacheable | error | nil response | panic} / tick 200 ms..301 s / purge (named or all caches, delete ok or failing) / evict (filler key in the same 1-slot shard) / restart (fresh dispatcher on the same store) / store corruption (missing, truncated, status word 1 or 0, expiry 0, nil response, expired, hit-for-pass, foreign hit) / store read-write fault modes; every history ends by draining the upstream; observation after each op at quiescence = state of every request (parked / in upstream with label / done with label, response id, age) and the decoded store record; non-trivial = history with at least one parked request or one hit; distinct by op sequence"
+	sum.Rule = "one case = one history of 30-45 ops on one cache key through the real cache middleware (server.NewCache over a real size-8 dispatcher, fake store in half of the cases) under testing/synctest: arrive (GET, 6% POST) / release of an in-flight upstream exchange with outcome {cacheable ttl 1,2,3,5 | uncacheable | error | nil response | panic} / tick 200 ms..301 s / purge (named or all caches, delete ok or failing) / evict (filler key in the same 1-slot shard) / restart (fresh dispatcher on the same store) / store corruption (missing, truncated in the response / after 8 bytes / 1-15 bytes short inside the trailing time fields, status word 1 or 0, expiry 0, nil response, expired, hit-for-pass, foreign hit) / store read-write fault modes; every history ends by draining the upstream; observation after each op at quiescence = state of every request (parked / in upstream with label / done with label, response id, age) and the decoded store record; non-trivial = history with at least one parked request or one hit; distinct by op sequence"
 	header := "From Coq Require Import List ZArith.\nImport ListNotations.\nFrom Pike Require Import Model.Sys Corr.SysCorr.\n"
 	w := hx.NewCaseWriter(out, "flight", header, "list fl_case", "check_cases", 6, sum)
 	distinct := hx.NewDistinct()
